@@ -10,4 +10,5 @@ def run(tier, replay=None):
     for cfg in cfgs:
         c14.run_template(rep, mir.load(cfg), cfg)
         c14.run_ranges(rep, mir.load(cfg), cfg)
+        c14.run_plumbing(rep, mir.load(cfg), cfg)
     return rep.finish("other", "derivation cone: lossless arithmetic and totality", "./check C14 %s" % tier)
